@@ -7,7 +7,9 @@ names (contracts/kani/harnesses.py).  An item whose proof runs out of resources 
 for every property that lists it.
 """
 
-FUNCTIONAL = ('post', 'std-post', 'assert', 'lemma-pre', 'other')
+# a function that can panic returns no value: arithmetic overflow / failed internal precondition inside a function
+# under contract refutes its functional property as well as C03
+FUNCTIONAL = ('post', 'std-post', 'assert', 'lemma-pre', 'other', 'overflow', 'divzero', 'pre', 'std-pre')
 PANIC = ('overflow', 'divzero', 'pre', 'std-pre')
 RANGE = ('type-inv', 'unchecked-pre')
 
@@ -26,7 +28,7 @@ PROPS = {
                   r'fn from_days_unchecked|fn try_from_days|fn extract|fn add_days)$',
                   r'^date :: proof fn lemma_ext$',
                   r'^laws :: fn law_c01_'] + CAL_LEMMAS,
-        'kinds': FUNCTIONAL + PANIC + RANGE,
+        'kinds': FUNCTIONAL + RANGE,
     },
     'C02': {'verus': ALL_EXEC, 'kinds': RANGE},
     'C03': {'verus': ALL_EXEC, 'kinds': PANIC},
